@@ -221,7 +221,7 @@ enum TCmd {
 
 #[derive(Debug)]
 enum Ev {
-    Stop(DebugStop),
+    Stop(#[allow(dead_code)] DebugStop),
     Returned,
     Ready,
     FreeDone,
